@@ -45,12 +45,14 @@ theorem gen_psd_power (P S2 dx : ℝ) (hdx : dx ≠ 0) (hS : S2 ≠ 0) :
 
 /-- the `S2` that normalises the power is the sum of squares of the very window that multiplied the data before the
 transform, and that window is `make_window(height, dx, window)`: made for this map and spacing, selected by the caller's
-`window` argument; the power is built on the SQUARED modulus of the spectrum (dataflow facts of the current source;
-"recognised and different" makes this false) -/
+`window` argument; the power is built on the SQUARED modulus of the spectrum; the sum of squares and the product height·window
+are formed after a conversion to FLOATING POINT (a boolean / 8-bit user window or map is legitimate input and narrow integer
+arithmetic wraps around) (dataflow facts of the current source; "recognised and different" makes this false) -/
 theorem gen_psd_window :
     Generated.C13.psdWindowSameInTransformAndS2 = true ∧
     Generated.C13.psdWindowMadeForHeightFromWindowArgument = true ∧
-    Generated.C13.psdPowerIsSquaredModulus = true := by
+    Generated.C13.psdPowerIsSquaredModulus = true ∧
+    Generated.C13.psdArithmeticInFloatingPoint = true := by
   decide
 
 /-- the x frequency axis is built from the number of columns, the y axis from the number of rows, the first output of the
@@ -100,9 +102,10 @@ theorem gen_brms_mask {K : Type} [Num K] (lt : K → K → Bool) (flow fhigh : K
   rfl
 
 /-- the integrator is looked up as `trapezoid` with `trapz` as the fallback (works on NumPy 1.x and 2.x); the function
-returns the square root of the last integral and masks a COPY of the caller's PSD -/
+returns the square root of the last integral and masks a COPY of the caller's PSD, converted to floating point if it is not -/
 theorem gen_brms_portable :
-    Generated.C13.brmsIntegratorPortable = true ∧ Generated.C13.brmsReturnsSqrtOfIntegralOfACopy = true := by
+    Generated.C13.brmsIntegratorPortable = true ∧ Generated.C13.brmsReturnsSqrtOfIntegralOfACopy = true ∧
+    Generated.C13.brmsWorksInFloatingPoint = true := by
   decide
 
 /-- the band `(flow, fhigh)` that `bandlimited_rms` ends up with, for every way of giving it (symbolic execution
